@@ -47,5 +47,12 @@ Lines(st, ls) ==
        IF st.pending = <<>> THEN Lines([st EXCEPT !.pending = l], Tail(ls))
        ELSE IF IsSpace(l[1]) THEN Lines([st EXCEPT !.pending = @ \o l, !.flags = @ \cup {"PART_HEADER_FOLDING"}], Tail(ls))   \* folded: appended raw
        ELSE Lines([Commit(st, st.pending) EXCEPT !.pending = l], Tail(ls))
-Block(ls) == LET r == Lines([hdrs |-> <<>>, flags |-> {}, pending |-> <<>>], ls) IN [hdrs |-> r.hdrs, flags |-> r.flags]
+\* htp_mpart_part_parse_c_t / htp_parse_ct_header: the media type is the Content-Type value up to the first ';', ',' or space, in lower case
+\* (<<>> = the part has no Content-Type field, <<t>> = type t)
+RECURSIVE TypeEnd(_, _)
+TypeEnd(v, i) == IF i <= Len(v) /\ v[i] \notin {59, 44, 32} THEN TypeEnd(v, i + 1) ELSE i
+ContentType(hdrs) == LET hit == {j \in 1..Len(hdrs) : LowerSeq(hdrs[j][1]) = N_ct} IN
+                     IF hit = {} THEN <<>>
+                     ELSE LET v == hdrs[CHOOSE j \in hit : TRUE][2] IN <<LowerSeq(SubSeq(v, 1, TypeEnd(v, 1) - 1))>>
+Block(ls) == LET r == Lines([hdrs |-> <<>>, flags |-> {}, pending |-> <<>>], ls) IN [hdrs |-> r.hdrs, flags |-> r.flags, ct |-> ContentType(r.hdrs)]
 =============================================================================
